@@ -415,6 +415,13 @@ def run_hfp_slc(case):
         h_ind = [(i.indicator, i.current_status) for i in hf.ag_indicators]
         if a_ind != h_ind:
             sim.violation_once('indicators', 'hfp:indicator-lists-differ', f'HF {h_ind} / AG {a_ind}')
+        # ... including what the AG announced about each indicator in its answer to AT+CIND=? (value range, position)
+        a_sup = [(i.indicator, sorted(i.supported_values)) for i in ag.ag_indicators]
+        h_sup = [(i.indicator, sorted(i.supported_values) if isinstance(i.supported_values, (set, list, tuple, frozenset)) else i.supported_values) for i in hf.ag_indicators]
+        if a_sup != h_sup:
+            sim.violation_once('indicator-ranges', 'hfp:indicator-value-ranges-differ', f'HF {h_sup[:3]} / AG {a_sup[:3]}')
+        elif [i.index for i in hf.ag_indicators] != list(range(len(hf.ag_indicators))):
+            sim.violation_once('indicator-index', 'hfp:hf-indicator-positions-wrong', f'HF holds positions {[i.index for i in hf.ag_indicators]}')
         if bothc and [int(c) for c in ag.supported_audio_codecs] != [int(c) for c in case['hf_codecs']]:
             sim.violation_once('codecs', 'hfp:codec-lists-differ', f'AG holds {ag.supported_audio_codecs}, HF announced {case["hf_codecs"]}')
         if both3 and sorted(o.value for o in hf.supported_ag_call_hold_operations) != sorted(case['chld']):
